@@ -1,9 +1,20 @@
 mod checks;
+mod crash;
 mod driver;
 mod gcmodel;
 mod gcunit;
+mod manicheck;
 mod manifest;
+mod shim;
 
 fn main() {
-    vcore::main_with(vec![checks::c01(), checks::c03(), checks::c04(), checks::c05(), checks::c07(), checks::c08(), checks::c20()], &[]);
+    vcore::main_with(
+        vec![checks::c01(), checks::c02(), checks::c03(), checks::c04(), checks::c05(), checks::c07(), checks::c08(), manicheck::check(), checks::c20()],
+        &[
+            ("child-run", crash::child_run),
+            ("child-recover", crash::child_recover),
+            ("mani-child-run", manicheck::child_run),
+            ("mani-child-recover", manicheck::child_recover),
+        ],
+    );
 }
